@@ -278,6 +278,13 @@ func runC07(sc C07Sc, c *kit.Case) *kit.Violation {
 		}()
 		select {
 		case q.t = <-arrived:
+		case r := <-q.done:
+			// the call returned before its query was ever handed to the socket
+			if r.res.Err == nil {
+				return kit.Violatef("C07:query-completed-by-wrong-datagram", "query #%d (%s to %v) returned a reply (marker %q) before its own datagram had been written: no datagram can have matched it", i, q.spec.API, q.dest, replyMarker(r.res))
+			}
+			c.Inconclusive = fmt.Sprintf("query #%d returned %v before sending", i, r.res.Err)
+			return nil
 		case <-time.After(10 * time.Second):
 			c.Inconclusive = "query datagram did not reach the socket within 10 s"
 			return nil
